@@ -9,10 +9,13 @@ from harness import core, pipe, pipecheck, pipeprops
 from harness.core import Failure, Result
 
 MANIFEST = dict(
-    pending="check runs (model lock-step + oracle) but its Coq theorems are still being proved; not claimed until coq/Props holds them",
     design_ref="DESIGN.md §6 C19",
-    text="Typed path algebra over the emitter model (coq/Props/C19.v): every non-empty path of every emitted event is "
-         "decode_tag(join(fsencode(root), names...)) with the watch path's tag; lock-step pipeline correspondence on the real "
+    text="Coq theorems (coq/Props/C19.v): NAME law - over every action list of the pipeline model every path of every queued "
+         "event is empty or the watched root followed by valid entry names (C19_pipeline_paths, via the reader invariant "
+         "C19_reader_inv through construct/read_batch/re-key/simulate and the emitter law C19_event_paths incl. synthetic events "
+         "through C14); TYPE law - a typed transcription of queue_events whose erasure is the validated emitter model carries the "
+         "watch's tag on every non-empty path (C19_type, C19_type_erase), polling join keeps the tag (C19_polling_type) and both "
+         "backends yield the same value for the same entry (C19_agree, C19_event_agree). Lock-step pipeline correspondence on the real "
          "kernel with names from an alphabet incl. non-ASCII and undecodable bytes; oracle on the inotify and the polling "
          "observer: type of every path = type of the watched path (Path -> str) and fsencode(path) = the spelled root joined "
          "with the entry's real relative name.",
